@@ -38,7 +38,7 @@ inductive GoVal where
   | int (i : Int)
   | float (m : Int) (e : Nat)  -- m·10^-e with a fractional part (integral floats are generated as such: e = 0)
   | nan
-  | inf
+  | inf (neg : Bool)     -- ±Inf of either float width (`%v` prints the sign)
   | str (s : String)
   | list (xs : List GoVal)
   | ref (id : Nat)           -- pointer to a world object
@@ -248,7 +248,7 @@ def GoVal.toJ : GoVal → Option JVal
 
 /-- `isNullish` on a resolver value -/
 def GoVal.nullish : GoVal → Bool
-  | .nil | .typedNil | .nan | .inf => true
+  | .nil | .typedNil | .nan | .inf _ => true
   | _ => false
 
 /-- `Enum.Serialize`: the name of the value whose internal value equals the result -/
@@ -266,7 +266,7 @@ def fmtGo : GoVal → Option String
   | .int i => some (intString i)
   | .float m e => some (if e == 0 then intString m else String.ofList (decChars m e))
   | .nan => some "NaN"
-  | .inf => some "+Inf"
+  | .inf neg => some (if neg then "-Inf" else "+Inf")
   | .str s => some s
   | .list xs => (fmtGoList xs).map (fun t => "[" ++ t ++ "]")
   | .ref id => some ("obj#" ++ toString id)
